@@ -6,18 +6,16 @@ after every operation.  Faults: chunking, preload, drop, halt, dup, burst, off-g
 """
 from __future__ import annotations
 
-from hexital import EMA, Hexital
-from hexital.core.candle_manager import CandleManager
-
 from .. import refmodels, world
 from ..catalogue import mk_candles
+from ..subjects import ROUTES, build_route
 from ..core import Discard, LibError, Violation, run_property
 from ..util import snap_cores, sub_rng, tf_seconds
 
 ID = "C03"
 LEVEL = "exploration"
 SUBBATCHES = ("calm", "faulty")
-ROUTES = ("manager", "indicator", "hexital_member", "hexital_level")
+REFERENCE_MODELS = ["resampler (refmodels.resample)"]
 RULE = ("runs are planned by the seeded world loop (exchange, feed faults, chunked delivery, repeated "
         "collapse passes) and executed on a real CandleManager via one of four routes; a run is "
         "non-trivial when the collapsed list was non-empty at a check point and (a feed fault fired or "
@@ -79,21 +77,6 @@ def plan(seed, subbatch):
             "ops": ops, "fired": dict(fired)}
 
 
-def _build(route, tf, rows):
-    candles = mk_candles(rows)
-    if route == "manager":
-        m = CandleManager(candles, timeframe=tf)
-        return m, m, (lambda: m.candles)
-    if route == "indicator":
-        ind = EMA(candles=candles, period=3, timeframe=tf)
-        return ind, ind.candle_manager, (lambda: ind.candles)
-    if route == "hexital_member":
-        hx = Hexital("sim", candles, [EMA(period=3, timeframe=tf)])
-        return hx, hx._candles[tf], (lambda: hx.candles(tf))
-    hx = Hexital("sim", candles, [EMA(period=3)], timeframe=tf)
-    return hx, hx._candles["default"], (lambda: hx.candles())
-
-
 def execute(trace, ctx=None):
     def body(run):
         cfg = trace["config"]
@@ -110,7 +93,7 @@ def execute(trace, ctx=None):
                 if kind == "new":
                     rows = op.get("preload") or []
                     delivered.extend(rows)
-                    subject, manager, view = run.call(len(rows), _build, route, tf, rows)
+                    subject, manager, view = run.call(len(rows), build_route, route, tf, rows)
                 elif subject is None:
                     continue
                 elif kind == "append":
